@@ -33,6 +33,11 @@ Inductive op14 :=
 | ORawField (k : rawkind) (c : list node) (name : string)
 | ORawMapFieldValue (k : rawkind) (c : list node) (name : string)
 | ORawFields (k : rawkind) (c : list node)
+(* kyaml/utils: PathSplitter(path, "/") as used by fieldspec.Filter (Yaml/FieldSpec.v), PathSplitter(path, d) and
+   SmarterPathSplitter(path, d) for a one-byte delimiter (Yaml/Match.v) *)
+| OPathSplit (path : string)
+| OPathSplitC (d : ascii) (path : string)
+| OSmartSplit (d : ascii) (path : string)
 (* Filter.SetValue used by the harness (a fresh value node per invocation) *)
 with setval14 :=
 | SVScalar (v : node)                 (* FieldSetter{Value: v} *)
@@ -208,6 +213,9 @@ Definition run14 (c : case14) : res (node * option node * obs14) :=
   | ORawMapFieldValue _ cn name =>
       do r <- raw_map_field_value cn name; Ok (d, None, ObStr (match r with Some v => node_value v | None => "" end))
   | ORawFields k cn => do l <- raw_fields k cn; Ok (d, None, ObStrs l)
+  | OPathSplit p => Ok (d, None, ObStrs (path_splitter p))
+  | OPathSplitC c p => Ok (d, None, ObStrs (path_splitter_c c p))
+  | OSmartSplit c p => Ok (d, None, ObStrs (smarter_path_splitter c p))
   end.
 
 Definition agree14 (c : case14) : bool :=
